@@ -1,8 +1,11 @@
 package main
 
 import (
+	"crypto/sha512"
 	"fmt"
 	"strings"
+
+	"golang.org/x/crypto/pbkdf2"
 
 	"golang.org/x/text/unicode/norm"
 	"golang.org/x/text/width"
@@ -80,6 +83,16 @@ func propC04(c *Ctx) {
 	r := c.rep
 	r.Rule = "seed ops (MnemonicToSeed, with a freshness probe: the result is overwritten and the call repeated) on: ASCII, every script of the lists, empty arguments, keys beyond the 128-byte HMAC block, compatibility characters, reordering mark sequences, passphrases beginning with marks, non-mnemonic strings, invalid UTF-8, and the 25..35 non-starter boundary; compared with Spec.seed = Lean PBKDF2-HMAC-SHA512(utf8 NFKD m, \"mnemonic\"||utf8 NFKD p, 2048, 64) over the pinned Unicode 15 tables, and with the model. Outside the stream-safe class the result must equal PBKDF2 over x/text's own normal forms (known finding D4). Non-trivial = distinct ops."
 	eng := c.specSentence(int64(langVals[2]), c.randBytes(16))
+	// the pure functional PBKDF2 of the theorems, the fast Lean one and x/crypto's, on the same inputs
+	for k, tc := range []struct{ pw, salt, it, n int }{{0, 0, 1, 64}, {3, 8, 2, 64}, {128, 8, 3, 64}, {129, 200, 2, 100}, {64, 16, 2048, 64}, {300, 13, 5, 1}} {
+		pw, salt := c.randBytes(tc.pw), c.randBytes(tc.salt)
+		m, s := c.drv.Ask(fmt.Sprintf("pbkdf2spec %s %s %d %d", hx(pw), hx(salt), tc.it, tc.n))
+		want := "ok " + hx(pbkdf2.Key(pw, salt, tc.it, tc.n, sha512.New))
+		r.count("pbkdf2-cross-check")
+		if m != want || s != want {
+			r.stale(Violation{Kind: "impl≠model", Class: "pbkdf2-cross-check", Op: fmt.Sprintf("pbkdf2spec #%d", k), Impl: want, Model: m, Spec: s})
+		}
+	}
 	c.seed("ascii", eng, "")
 	c.seed("ascii", eng, "TREZOR")
 	c.seed("empty", "", "")
